@@ -499,6 +499,12 @@ def js_ir(e, env):
             return ('call', 'map', [js_ir(body, inner), js_ir(c['object'], env)])
         if c['type'] == 'Identifier':
             return ('call', c['name'], [js_ir(a, env) for a in e['arguments']])
+        # m.get(k) on a Map is the lookup m[k] on an object: undefined when the key is missing on both
+        if c['type'] == 'MemberExpression' and not c['computed'] and c['property'].get('name') == 'get' and len(e['arguments']) == 1:
+            a0 = e['arguments'][0]
+            if a0['type'] == 'Literal' and isinstance(a0.get('value'), int) and not isinstance(a0.get('value'), bool):
+                return ('idx', js_ir(c['object'], env), a0['value'])
+            return ('idx', js_ir(c['object'], env), js_ir(a0, env))
         if c['type'] == 'MemberExpression' and not c['computed'] and c['object']['type'] == 'CallExpression':
             return ('call', '.' + c['property']['name'], [js_ir(c['object'], env)] + [js_ir(a, env) for a in e['arguments']])
         if c['type'] == 'MemberExpression' and not c['computed'] and c['object']['type'] in ('ThisExpression', 'Identifier') and (
